@@ -120,6 +120,13 @@ CLAIMS["C20"] = (
     "DESIGN.md §2 C20",
 )
 
+CLAIMS["C19"] = (
+    "gradient-flow abstract interpretation (autograd-connectivity lattice D/K/M/B with severing-site provenance, saved-tensor / in-place version analysis, interprocedural over repo helpers) + conv/transposed-conv layer arithmetic from constructor literals + grid evaluation of the filter-count formula",
+    "Every analog channel (AWGN, Laplacian, phase noise, flat/Rayleigh/Rician/log-normal fading, nonlinear), every power constraint (total, average, PAPR, per-antenna), the AF module and the sequential forward are interpreted over a lattice that tracks whether a value is connected to the signal parameter by an unbroken autograd graph: every returned value must be connected (no .item()/.detach()/.data/float()/torch.tensor()/numpy/no_grad on the signal path, not piecewise constant), and no tensor that an op on the path saved for backward - nor the caller's input - may be modified in place afterwards (ordering by evaluation sequence, exclusive branches excluded). DeepJSCCModel's stage list is [encoder, constraint, channel, decoder] by parameter identity. The bundled image encoders/decoders are checked layer by layer from constructor literals: stride-2 convs halve every even size, transposed convs double it, stride-1 layers preserve it, encoder down-steps equal decoder up-steps, plain chains agree on channels, documented [0,1] decoders end in Sigmoid; the filter-count helper equals channels*4^layers*ratio(*2 complex) on a 64-point grid. Decides these structural necessary conditions, not gradient values or non-vanishing.",
+    "Trusted: the saved-tensor table of gradflow.py (which torch ops keep their input / result for backward), differentiability of torch ops not listed as severing or piecewise constant, of user-supplied nonlinear functions and of compressai blocks (summarised by their stride/upsample arguments). Unknown layer types or non-literal geometry -> exit 2.",
+    "DESIGN.md §2 C19",
+)
+
 NOT_APPLICABLE = {
     "C09": "conjunction at run time of C02/C05/C06/C10/C11/C15 over component pairings and adversarial channels; its structural preconditions (stage order, LLR polarity, label agreement, block framing) are decided under C17, C15, C05, C20 - no additional clause is visible in the shape of the code (DESIGN.md §2 C09)",
 }
